@@ -5,14 +5,49 @@ ENTRY = dict(
         title="Automatic cut finding returns a feasible, faithfully accounted cut circuit",
         prop_file="Properties/C07.v",
         corr_files=["Corr/C07Corr.v"],
-        theorems=["c07_only_markers", "c07_erase_markers", "c07_metadata", "c07_accounting", "c07_feasible", "c07_fails_only_if_infeasible",
+        theorems=["c07_only_markers", "c07_erase_markers", "c07_metadata", "c07_accounting", "c07_feasible",
+                  "c07_fails_only_if_infeasible", "c07_export_never_crashes", "c07_terminates",
                   "c07_compression_invisible", "c07_facts"],
         allowed_axioms=[],
         facts=["cf_left_wire_mult", "cf_right_wire_mult", "cf_both_wires_mult", "cf_gate_cut_uses_gate_gamma",
                "cf_action_registry", "cf_search_funcs", "cf_upper_bound_cost_is_gamma_ub", "cf_default_max_gamma",
                "cf_default_max_backjumps", "cf_stop_at_first_min", "cf_overhead_is_square"],
         harness="c07",
-        level_text="(in progress)",
+        level_text="Unbounded theorems (all circuits, all widths, all cut-kind combinations, all gamma/backjump limits, all random "
+                   "tapes, all fuel) about the executable model of find_cuts (qc_to_cco, first-use renumbering, the five actions with "
+                   "their guards and assertions, greedy pass, best-first search with its priority queue, CutOptimization, the "
+                   "LOCutsOptimizer driver, export_cuts on the SimpleGateList, cut_gates, the sorted wire-cut insertion loop with its "
+                   "running counter, metadata scan): whenever the model returns, the output is the input with only markers added "
+                   "according to a permitted plan (CutWire immediately before the gate on its input qubit, cut gates wrapped), the "
+                   "metadata lists exactly the marker positions/kinds, the overhead is the product kappa^2 / 16-per-marker over that "
+                   "plan, every component of the independent wire-segment graph of the output has at most W segments; a ValueError "
+                   "(supported two-qubit gates, valid settings, >=1 cut kind) only if no permitted plan is feasible; never any other "
+                   "exception (all assertions incl. those of export_cuts unreachable); explicit fuel bound. Closed under the global "
+                   "context. The model is run against the implementation on >450 (quick) / >7000 (thorough) generated cases per run, "
+                   "comparing the output circuit, metadata, final and greedy search state, SearchStats, random-tape consumption and "
+                   "the SimpleGateList after export_cuts.",
         level_note=STD_NOTE + "No axioms.",
-        assumptions=[],
+        assumptions=[
+            "Model/CutFinder*.v is a hand-written model of automated_cut_finding.find_cuts and cut_finding/*; tied to /repo by the C07 "
+            "correspondence (vm_compute of the model on the inputs the implementation ran on, with the recorded random tape) and by "
+            "the regenerated facts (cost multipliers 4/4/16, action registry order and groups, cost_func = upper-bound cost in both "
+            "SearchFunctions tables, stop_at_first_min, overhead = gamma_UB**2, defaults)",
+            "bell_pairs, gamma_LB, cut_actions_list are not modelled: they do not influence the default cost function "
+            "(facts obligation); a cost tuple (gamma_UB, inf) is modelled by gamma_UB",
+            "path compression in find_wire_root is left out of the state; c07_compression_invisible proves it unobservable",
+            "oracles: the numpy Generator of the priority queue is a tape nat -> Q recorded by wrapping numpy.random.default_rng "
+            "(theorems hold for every tape); heapq is modelled as extraction of the least (cost,-depth,rand,seq) entry",
+            "gate kappas and the canonical wrapped form of a gate (TwoQubitQPDGate.from_instruction) are inputs supplied by the "
+            "harness from QPDBasis; theorems about the segment graph assume the wrapped form is a TwoQubitQPDGate (gtab_ok)",
+            "max_wire_cuts_gamma is modelled exactly over Q (least k with 2^(k+1) >= g+1); binary64 corner cases of "
+            "np.ceil(np.log2(g+1)-1) and rounding of gamma products beyond 2^53 are out of scope (the generator keeps the greedy gamma "
+            "below 2^53 where binary64 is exact; overhead beyond 2^52 is compared with relative tolerance 2^-50)",
+            "the model implements the REPAIRED queue behaviour of BestFirstSearch.optimization_pass (DESIGN F3: a popped state over a "
+            "cost bound is pushed back unless min_reached); the C07 checker does not compare minimum_reached / tape consumption on "
+            "cases where the model took that branch unless CKT_C07_STRICT=1 (that flag is property C08's subject)",
+            "theorem hypotheses: circ_wf (multi-qubit non-barrier instructions act on exactly two distinct qubits), circ_plain (gates "
+            "and barriers only) for the segment-graph theorems; circuits with classical bits are refused by cut_gates and lie outside "
+            "the property's domain; the no-cut-kind configuration (gate_lo = wire_lo = False) is excluded from "
+            "c07_fails_only_if_infeasible",
+        ],
     )
